@@ -46,8 +46,11 @@ def configs(tier, rng):
     allc.append(dict(fam="rpo2", bits=bits, mv=mv, mode=mode, slope=s))
   if tier == "thorough":
     return allc
-  idx = rng.choice(len(allc), size=70, replace=False)
-  return [allc[i] for i in sorted(idx)]
+  def key(c):
+    mv = c["mv"]
+    mvk = "none" if mv is None else ("lt1" if mv < 1 else ("eq1" if mv == 1 else "gt1"))
+    return (c["fam"], mvk, c["mode"], c.get("slope") is None)
+  return vlib.stratified(allc, key, 70, rng, per=2)
 
 
 def describe(c):
